@@ -261,7 +261,7 @@ public:
 	template<class T>
 	StreamBuffer& operator<<(const Array<T>& x)
 	{
-		if (_endian == ASL_OTHER_ENDIAN)
+		if (_endian == ASL_OTHER_ENDIAN || !IsArithmetic<T>::value)
 		{
 			foreach(const T& y, x)
 				*this << y;
